@@ -60,14 +60,17 @@ type Config struct {
 // DrawConfig draws the swarm configuration.
 var forceSQL = os.Getenv("GOSSIPSIM_SQL") != ""
 
-// blockInsideBurst (GOSSIPSIM_BLOCK_IN_BURST=1) is an experiment, not part of
-// the check: a block is mined while the messages of a burst are still being
-// handled. The step oracle compares projections taken at step boundaries with
-// the chain as it is at the end of the step, so a channel that legitimately
-// entered the graph before the block closed it is misjudged; the arm stays
-// off until the oracle knows the order of chain and gossip events inside a
-// step.
-var blockInsideBurst = os.Getenv("GOSSIPSIM_BLOCK_IN_BURST") == "1"
+// blockInsideBurst: in one burst out of four a block is mined while the
+// messages of the burst are still being handled (it may spend the funding
+// output of a channel the burst is about). The step oracle compares
+// projections taken at step boundaries, so it needs to know what was in the
+// graph in between: that comes from the probe store, which reads every channel
+// after every commit of the graph database (seenStored / everStored). The arm
+// therefore runs on bbolt only; on sqlite there is no commit hook and a
+// channel that came and went inside the step would be misjudged as "relayed
+// but never in the graph" (seen once in 45 000 experiment runs).
+// GOSSIPSIM_BLOCK_IN_BURST=0 turns it off.
+var blockInsideBurst = os.Getenv("GOSSIPSIM_BLOCK_IN_BURST") != "0"
 
 // noConcurrent maps the concurrent arm onto the sequential one (used by the
 // determinism self-test, which compares trace hashes exactly).
@@ -176,6 +179,13 @@ type Sim struct {
 	seenStored map[uint64]*pChan
 	// every channel_announcement (as read back from the store) ever stored
 	everCAWire map[string]bool
+	// nodes the probe store saw absent (or as a shell without announcement)
+	// at some commit since the last check: a node that lost its last channel
+	// to a block is pruned, and an announcement that arrives afterwards in the
+	// same step meets no stored one to be newer than
+	nodeGone map[[33]byte]bool
+	// a block was mined inside the burst of the current step
+	blockInBurst bool
 }
 
 type storedKey struct {
@@ -427,7 +437,16 @@ func (s *Sim) run() {
 		for _, c := range s.u.chans {
 			scids = append(scids, c.scid.ToUint64())
 		}
+		s.nodeGone = map[[33]byte]bool{}
 		s.w.kv.OnCommitted = func(int) {
+			for _, n := range s.u.nodes {
+				ts, ok, err := s.w.probe.HasV1Node(context.Background(), n.pub)
+				if err == nil && (!ok || ts.Unix() <= 0) {
+					s.storedMu.Lock()
+					s.nodeGone[n.pub] = true
+					s.storedMu.Unlock()
+				}
+			}
 			for _, id := range scids {
 				info, p1, p2, err := s.w.probe.FetchChannelEdgesByID(context.Background(), lnwire.GossipVersion1, id)
 				if err != nil || info == nil {
@@ -515,9 +534,10 @@ func (s *Sim) run() {
 				}
 			}
 			blk := ""
-			if blockInsideBurst && r.Draw(4) == 0 {
+			if blockInsideBurst && s.seenStored != nil && r.Draw(4) == 0 {
 				// a block (possibly closing one of the channels the burst is
 				// about) arrives while the messages are still being handled
+				s.blockInBurst = true
 				blk = " and " + s.mine()
 				r.Count("probe_block_inside_burst")
 			}
